@@ -137,10 +137,15 @@ impl Prop for C01 {
         }
     }
     fn rule(&self) -> &'static str {
-        "one run = one generated program + inputs executed, proved with one of the four standard option sets (Blake3-96/128, RPO-96/128) under randomised execution knobs, every verifier input serialised, sent through the fault-free channel, decoded and verified. Non-trivial = execution succeeded and a proof was produced; distinct = digest of (source, inputs, advice, option set, knobs)."
+        "one run = one generated program (in 1 run of 5 a program searched so that its cycles, range-checker rows or chiplet rows end at a power of two) + inputs executed, proved with one of the four standard option sets (Blake3-96/128, RPO-96/128) under randomised execution knobs, every verifier input serialised, sent through the fault-free channel, decoded and verified. Non-trivial = execution succeeded and a proof was produced; distinct = digest of (source, inputs, advice, option set, knobs)."
     }
     fn generate(&self, rng: &mut Rng, _tier: Tier, _index: u64) -> Value {
         let set = *rng.pick(&["b96", "b96", "b96", "b96", "b96", "b96", "b96", "b96", "b96", "b128", "b128", "b128", "b128", "b128", "r96", "r96", "r96", "r96", "r96", "r128"]);
+        if rng.chance(1, 5) {
+            // a component (cycles, range checker, chiplets) that ends right at a power of two
+            let sc = crate::gen::boundary::scenario(rng);
+            return json!({"prog": sc["prog"], "set": set, "expected_cycles": *rng.pick(&[0u64, 64, 256, 4096]), "tracing": rng.chance(1, 2), "boundary": sc["boundary"]});
+        }
         let tiny = set == "r128" || rng.chance(1, 3);
         let cfg = small_cfg(rng, tiny);
         let p = generate(rng, cfg);
